@@ -204,6 +204,12 @@ pub fn bfs<S: System>(
             total.depth = depth - 1;
             return total;
         }
+        if !total.first_bad.is_empty() {
+            // a violation was found at this depth: it is a shortest one; stop here
+            total.complete = false;
+            total.depth = depth;
+            return total;
+        }
         // deterministic choice of representative: smallest index wins
         found_all.sort_by_key(|&(_, i)| i);
         let mut next: Vec<Vec<u8>> = Vec::new();
